@@ -23,7 +23,7 @@ pub fn prop() -> Prop {
 fn spec() -> Spec {
     Spec {
         kinds: vec![Kind { name: "jacobian", quick: 300_000, thorough: 8_000_000, serial: false }, Kind { name: "shared_history", quick: 20_000, thorough: 500_000, serial: false }],
-        rule: "each case = non-degenerate 6-DOF robot (64 sign patterns, offsets), bare or in a stack of depth 1..3 from Tool/Base/Frame/Parallelogram, with or without joint limits (a share of the joint vectors sits within the differencing step of a limit) x q x epsilon in {1e-7,1e-6,1e-5}; the Jacobian is reconstructed through torques_from_vector(e_k) and compared column by column with the geometric Jacobian of the reference chain (x base, tool lever arm, coupling matrix for parallelograms); velocities reproduce the twist when cond(J) <= 1e6; torques == J^T F; isometry- and vector-based entry points agree. shared_history: 2-3 robots sharing link lengths (other signs / offsets / c4) evaluated at the bit-identical joint vector, step and stack in the order A,B,(C,)A,B,.. on one thread, each judged by its own geometric Jacobian. non-trivial = cond(J) <= 1e6; distinct = hash(robot, stack, q, eps) Workload additions: joint vectors beyond half a turn and with joints resting at exact zeros; isometries handed over with the negated quaternion; kind shared_history (as in the rule).",
+        rule: "each case = non-degenerate 6-DOF robot (64 sign patterns, offsets), bare or in a stack of depth 1..3 from Tool/Base/Frame/Parallelogram, with or without joint limits (a share of the joint vectors sits within the differencing step of a limit) x q x epsilon in {1e-7,1e-6,1e-5}; the Jacobian is reconstructed through torques_from_vector(e_k) and compared column by column with the geometric Jacobian of the reference chain (x base, tool lever arm, coupling matrix for parallelograms); velocities reproduce the twist when cond(J) <= 1e6; torques == J^T F; isometry- and vector-based entry points agree. shared_history: 2-3 robots sharing link lengths (other signs / offsets / c4) evaluated at the bit-identical joint vector, step and stack in the order A,B,(C,)A,B,.. on one thread, each judged by its own geometric Jacobian. non-trivial = cond(J) <= 1e6; distinct = hash(robot, stack, q, eps) Workload additions: joint vectors beyond half a turn and with joints resting at exact zeros; isometries handed over with the negated quaternion; kind shared_history (as in the rule). Rounds 7-9: linearity for twists 1e-6..1e-9 times slower; scaled robots and far-away bases.",
         assumptions: vec![
             "|J - J_geo| <= 5*eps*(1+reach) + 4e-15*(1+reach)/eps (forward-difference truncation + rounding)",
             "J*qdot == x within cond(J)*1e-10*(1+|x|) when cond(J) <= 1e6 (SVD computed in the harness)",
@@ -238,6 +238,25 @@ fn evaluate(idx: u64, robot: &Robot, layers: &Vec<Layer>, q: &[f64; 6], eps: f64
                     mon.violation("velocities-do-not-reproduce-twist", "J * velocities_from_vector(x) differs from x on a well conditioned Jacobian", detail("velocities", json!({"x": jf(x.as_slice()), "qdot": jf(&qd), "cond": cond, "worst": worst})));
                 } else {
                     mon.held();
+                }
+                // the map twist -> joint velocities is linear: a twist a million .. a billion times slower gives joint
+                // velocities slower by the same factor (relative check: an absolute one cannot see a dead band)
+                {
+                    let k = *rng.pick(&[1e-6, 1e-8, 1e-9]);
+                    let xs = x * k;
+                    match jac.velocities_from_vector(&xs) {
+                        Ok(qs) => {
+                            let scale = qd.iter().fold(0.0f64, |a, b| a.max(b.abs()));
+                            let worst_rel = (0..6).map(|i| (qs[i] - qd[i] * k).abs()).fold(0.0f64, f64::max) / (scale * k).max(1e-300);
+                            mon.count("slow_twists_checked");
+                            if !(worst_rel <= 1e-6 * cond.max(1.0)) && scale > 1e-6 {
+                                mon.violation("velocities-not-linear-for-slow-twists", "joint velocities for a slow twist are not the scaled joint velocities of the fast one", detail("velocities-linear", json!({"factor": k, "x": jf(x.as_slice()), "qdot": jf(&qd), "qdot_slow": jf(&qs), "relative_error": worst_rel})));
+                            } else {
+                                mon.held();
+                            }
+                        }
+                        Err(e) => mon.violation("velocities-error-on-regular-jacobian", "velocities_from_vector failed for a slow twist on a well conditioned Jacobian", detail("velocities-linear", json!({"error": e}))),
+                    }
                 }
                 // velocities(iso) and velocities_fixed agree with the vector form
                 let xi = Vector6::new(x[0], x[1], x[2], sa.x, sa.y, sa.z);
